@@ -748,3 +748,37 @@ pub struct Pos {
     pub row: u16,
     pub col: u16,
 }
+
+#[cfg(vt100_verif)]
+impl Grid {
+    pub(crate) fn verif_dump(&self, name: &str, out: &mut String) {
+        use std::fmt::Write as _;
+        writeln!(
+            out,
+            "GRID {name} {} {} pos={},{} saved={},{} region={},{} origin={} sorigin={} cap={} off={} nlive={} nsb={}",
+            self.size.rows,
+            self.size.cols,
+            self.pos.row,
+            self.pos.col,
+            self.saved_pos.row,
+            self.saved_pos.col,
+            self.scroll_top,
+            self.scroll_bottom,
+            u8::from(self.origin_mode),
+            u8::from(self.saved_origin_mode),
+            self.scrollback_len,
+            self.scrollback_offset,
+            self.rows.len(),
+            self.scrollback.len(),
+        )
+        .unwrap();
+        for (i, row) in self.scrollback.iter().enumerate() {
+            write!(out, "ROW S {i} ").unwrap();
+            row.verif_dump(out);
+        }
+        for (i, row) in self.rows.iter().enumerate() {
+            write!(out, "ROW L {i} ").unwrap();
+            row.verif_dump(out);
+        }
+    }
+}
